@@ -658,6 +658,16 @@ void c19_run(Tape& t, Ctx& ctx, Opt& opt, const TM& tm, const Problem& p, const 
   }
   // ---- a second self-check on the same optimizer and workspace at ANOTHER vector of the same size: nothing of the first call may survive
   if (t.chance(1, 3)) {
+    // half of the time the optimizer is re-initialised in between with a problem of the same size whose NON-optimised data differ
+    // (fixed end points, fixed boundary derivatives): the second check is about that problem
+    const bool recfg = t.flag();
+    if (recfg) {
+      Problem p2 = p;
+      for (int d = 0; d < D; ++d) { p2.P(0, d) += 0.5; p2.P(N, d) -= 0.25; }
+      for (int e = 0; e < 2; ++e) for (int m = 1; m <= 3; ++m) for (int d = 0; d < D; ++d) bcf(p2.bc, e == 1, m)(d) += 0.25;
+      VCHECK(ctx, opt.setInitState(p2.T, p2.P, p2.t0, p2.bc), "init-rejected", "valid problem rejected on re-initialisation");
+      ctx.label("second-self-check:after-reinitialisation");
+    }
     Eigen::VectorXd x2 = gen_x(t, opt, tm, N);
     Eigen::VectorXd g2, d2;
     typename Opt::Workspace wm2;
@@ -682,7 +692,8 @@ void c19_run(Tape& t, Ctx& ctx, Opt& opt, const TM& tm, const Problem& p, const 
     eval(costs, x2, gf2, &wf2);
     const Spline& after2 = own_ws ? wown.spline : *opt.getOptimalSpline();
     VCHECK(ctx, mat_same_bits(after2.getTrajectory().getCoefficients(), wf2.spline.getTrajectory().getCoefficients()), "state-not-restored", who << ": after a second self-check the workspace's spline is not the one of the second vector");
-    // leave the object as the remaining checks expect it: re-run at the first vector
+    // leave the object as the remaining checks expect it: the first problem again, re-run at the first vector
+    if (recfg) VCHECK(ctx, opt.setInitState(p.T, p.P, p.t0, p.bc), "init-rejected", "valid problem rejected on re-initialisation");
     (void)run_helper(costs, tol, wp);
     ctx.label("second-self-check-same-object");
   }
@@ -711,6 +722,19 @@ void c19_run(Tape& t, Ctx& ctx, Opt& opt, const TM& tm, const Problem& p, const 
       if (Delta >= 10 * tol) {
         typename Opt::Workspace wb;
         auto rb = run_helper(bad, tol, own_ws ? &wb : nullptr);
+        // the returned vectors and norms describe the failing check as well: the cost (hence every difference quotient) is the
+        // same as with the correct functor, and the norms belong to the returned vectors
+        VCHECK(ctx, rb.numerical.size() == n && rb.analytical.size() == n, "result-shape", who << ": failing check returns vectors of sizes " << rb.analytical.size() << "/" << rb.numerical.size());
+        for (int i = 0; i < n; ++i) {
+          double allow = 1e-9 * std::fabs(num(i)) + 64 * DBL_EPSILON * cmax / eps + 1e-280;
+          VCHECK(ctx, std::fabs(rb.numerical(i) - num(i)) <= allow, "numerical-not-central-difference",
+                 who << ": failing check (wrong " << what << " gradient): numerical[" << i << "] = " << g17(rb.numerical(i)) << " but the central difference of the cost is " << g17(num(i)) << " (" << n << " variables)");
+        }
+        {
+          double en = (rb.analytical - rb.numerical).norm();
+          VCHECK(ctx, std::fabs(rb.error_norm - en) <= 1e-12 * (en + 1e-300) + 1e-300, "error-norm", who << ": failing check: error_norm " << g17(rb.error_norm) << " is not |analytical - numerical| = " << g17(en) << " (" << n << " variables)");
+        }
+        if (n > 32) ctx.label("failing-check:>32-variables");
         VCHECK(ctx, !rb.valid, "wrong-gradient-accepted",
                who << ": a " << what << " whose supplied gradient is wrong in one component (effect on the checked gradient " << g17(Delta) << " >= 10 x tolerance " << g17(tol) << ") is reported PASSED (error_norm " << g17(rb.error_norm) << ")");
         ctx.label(std::string("perturbed:") + what);
@@ -723,6 +747,7 @@ void c19_run(Tape& t, Ctx& ctx, Opt& opt, const TM& tm, const Problem& p, const 
 void c19(Tape& t, Ctx& ctx) {
   int mp = t.range(0, 1);
   int N = t.pickw({2, 2, 3, 2, 1}) + 1;
+  if (t.chance(1, 10)) N = 8 + t.range(0, 8);   // problems with several dozen decision variables
   double tsc;
   Problem p = gen_problem(t, N, &tsc);
   if (mp == 0) { OptD opt; QuadInvTimeMap tm; VCHECK(ctx, init_state(t, ctx, opt, p), "init-rejected", "valid problem rejected"); c19_run(t, ctx, opt, tm, p, "QuadInv+Identity"); }
